@@ -4,9 +4,21 @@
 package utils
 
 import (
+	"path/filepath"
 	"runtime"
 	"strings"
 )
+
+// WalkRoot returns the directory to hand to filepath.WalkDir. WalkDir does not follow a symbolic
+// link given as its root: a linked directory (a checkout reached through `~/crs -> /opt/crs`, a
+// `regex-assembly` kept elsewhere) would be walked as a single non-directory entry and every
+// command that works through a whole tree would do nothing and report success.
+func WalkRoot(dir string) string {
+	if resolved, err := filepath.EvalSymlinks(dir); err == nil {
+		return resolved
+	}
+	return dir
+}
 
 // EscapeGlob escapes the characters filepath.Glob would interpret, so that a directory name
 // can be used literally as the leading part of a pattern (a checkout may live in `crs[fork]`).
